@@ -8,8 +8,8 @@ Invariant and its preservation by every act: `CoclsModel/ExecProofs.lean`.
 
 Every theorem below that mentions `Reachable` quantifies over *all* act lists, i.e. over every program of any
 number of coroutines built from spawn/detach, pause, promise resolution / mutex release / queue push (generic
-`wake`, discarded or awaited suspend point), future await, `co_await async`, `co_return` and
-`install_queue_and_call` blocks, for all step counts, entered from ordinary code, from inside an installed
+`wake`, discarded or awaited suspend point), future await, `co_await async`, `co_return`, synchronous access to
+generators (`gnext` / `gyield`) and `install_queue_and_call` blocks, for all step counts, entered from ordinary code, from inside an installed
 block or from inside a coroutine.  The step-level theorems hold in every state.
 -/
 namespace Cocls.Exec
@@ -324,6 +324,19 @@ theorem c05_resume_only_suspended {s : State} (h : Reachable s) (a : Act) (x : N
       split at hx
       next hd => simp at hx; subst hx; right; simp [hd]
       next => left; simpa [coStep] using hx
+    | gnext d =>
+      simp only [coStep, coGnext] at hx
+      split at hx
+      next hd =>
+        simp at hx; subst hx
+        rcases (resumable_iff s d).1 hd with e | e <;> (right; simp [e])
+      next => left; simpa [coStep] using hx
+    | gyield =>
+      simp only [coStep, coGyield] at hx
+      split at hx
+      next =>
+        exact key _ St.yielded (mid_suspend s c St.yielded hI hc (by simp) (by simp) (by simp)) rfl (by simp) (by simp) hx
+      next => left; simpa [coStep] using hx
     | call d =>
       simp only [coStep, coCall] at hx
       split at hx
@@ -394,6 +407,13 @@ theorem c05_resume_only_suspended {s : State} (h : Reachable s) (a : Act) (x : N
       next hd =>
         split at hx <;> (simp at hx; subst hx; right; simp [hd])
       next => simp [hc] at hx
+    | gnext d =>
+      simp only [mainStep, mainGnext] at hx
+      split at hx
+      next hd =>
+        split at hx <;> (simp at hx; subst hx; rcases (resumable_iff s d).1 hd with e | e <;> (right; simp [e]))
+      next => simp [hc] at hx
+    | gyield => simp [mainStep, hc] at hx
     | enter => simp [mainStep, mainEnter, hc] at hx
     | leave =>
       simp only [mainStep, mainLeave] at hx
@@ -535,6 +555,104 @@ no activation begins or ends (whatever the caller had made ready is still queued
 theorem c05_blocking_wait (s : State) : step s Act.fwait = s := by
   unfold step
   split <;> rfl
+
+/-! ## Generators accessed synchronously (generator.h)
+
+`bool(gen.next())`, `gen()` and `gen.next().subscribe(a)` resume the generator body directly, from whatever code makes the
+access.  What C05 promises about the body — a coroutine running on the thread — is what it promises about every coroutine:
+`c05_active_iff` (whoever executes, a queue is installed), `c05_no_preempt`, `c05_fifo`, `c05_pause_round_robin`, `c05_drain`
+hold for every act list, the accesses (`Act.gnext`) and `co_yield`s (`Act.gyield`) included.  The pinned code resumed the body
+by a bare `h.resume()` even from ordinary code outside coroutine mode (`c05_asis_generator_without_queue`, `/repo` commit
+191263e). -/
+
+/-- **An accessed generator body runs in coroutine mode.**  Accessing a generator whose body has not started or is suspended in
+`co_yield` transfers control to the body with a queue installed, in every reachable state: from ordinary code outside coroutine
+mode the access installs the queue for this activation (`Base.loop [] false`: when the body returns, the trailer runs everything
+the body queued and then leaves coroutine mode — `c05_generator_yield`, `c05_drain`); with a queue installed (ordinary code inside
+a block, or a coroutine, which is then blocked on the C stack) the body is resumed directly.  Nothing is taken from or added to
+the ready queue by the access itself. -/
+theorem c05_generator_access {s : State} (h : Reachable s) (d : Nat) (hd : resumable s d = true) :
+    (step s (Act.gnext d)).cur = some d
+    ∧ (step s (Act.gnext d)).active = true
+    ∧ (step s (Act.gnext d)).ready = s.ready ∧ (step s (Act.gnext d)).deq = s.deq
+    ∧ (step s (Act.gnext d)).enq = s.enq ∧ (step s (Act.gnext d)).runs = s.runs ++ [d]
+    ∧ (s.cur = none → s.active = false →
+        (step s (Act.gnext d)).base = some (Base.loop [] false) ∧ (step s (Act.gnext d)).blocks = [])
+    ∧ (s.cur = none → s.active = true →
+        (step s (Act.gnext d)).base = some Base.callMain ∧ (step s (Act.gnext d)).blocks = s.blocks)
+    ∧ (∀ c, s.cur = some c →
+        (step s (Act.gnext d)).calls = c :: s.calls ∧ (step s (Act.gnext d)).st c = St.stacked
+        ∧ (step s (Act.gnext d)).base = s.base) := by
+  have hI := reachable_inv h
+  cases hc : s.cur with
+  | some c =>
+    obtain ⟨hr, hb, ha⟩ := cur_facts hI hc
+    have hne : c ≠ d := by
+      intro e; subst e
+      rcases (resumable_iff s c).1 hd with e | e <;> simp [e] at hr
+    simp [step, hc, coStep, coGnext, hd, ha, upd_apply, hne]
+  | none =>
+    obtain ⟨hb, hcl, hnr, hab⟩ := main_facts hI hc
+    cases ha : s.active with
+    | true => simp [step, hc, mainStep, mainGnext, hd, ha]
+    | false =>
+      have hbl : s.blocks = [] := by
+        by_cases hh : s.blocks = []
+        · exact hh
+        · have := hab.2 hh; simp [ha] at this
+      simp [step, hc, mainStep, mainGnext, hd, ha, hbl]
+
+/-- **`co_yield` to a synchronous access returns to the accessor**, who is not preempted by what the body queued: a coroutine
+that made the access continues with the queue untouched; ordinary code outside coroutine mode gets control back only after the
+trailer of the queue installed for the access has run what the body made ready (the head of the queue is next), or at once when
+nothing is queued — coroutine mode is then left. -/
+theorem c05_generator_yield (s : State) (c : Nat) (hc : s.cur = some c) (hg : s.gen c = true) :
+    step s Act.gyield = settle { s with st := upd s.st c St.yielded }
+    ∧ (∀ p ps, s.calls = p :: ps →
+        (step s Act.gyield).cur = some p ∧ (step s Act.gyield).ready = s.ready ∧ (step s Act.gyield).deq = s.deq
+        ∧ (step s Act.gyield).runs = s.runs ∧ (step s Act.gyield).calls = ps)
+    ∧ (∀ prev x q, s.calls = [] → s.base = some (Base.loop [] prev) → s.ready = x :: q →
+        (step s Act.gyield).cur = some x ∧ (step s Act.gyield).ready = q ∧ (step s Act.gyield).deq = s.deq ++ [x]
+        ∧ (step s Act.gyield).active = s.active)
+    ∧ (∀ prev, s.calls = [] → s.base = some (Base.loop [] prev) → s.ready = [] →
+        (step s Act.gyield).cur = none ∧ (step s Act.gyield).active = prev ∧ (step s Act.gyield).base = none) := by
+  refine ⟨by simp [step, hc, coStep, coGyield, hg], ?_, ?_, ?_⟩
+  · intro p ps hp; simp [step, hc, coStep, coGyield, hg, settle, hp]
+  · intro prev x q hcl hb hr; simp [step, hc, coStep, coGyield, hg, settle, hcl, hb, hr]
+  · intro prev hcl hb hr; simp [step, hc, coStep, coGyield, hg, settle, hcl, hb, hr]
+
+/-- The pinned (unrepaired) generator access (before `/repo` commit 191263e "fix: synchronous and future access to a generator
+ran its body without a coroutine queue"; replayed on the headers in corpus/c05_generator_access.txt): ordinary code reads
+generator 0 synchronously, the body runs with no queue installed; it detaches coroutine 1 and drops the suspend point — 1 runs
+at once, in the middle of the body, which has neither suspended nor finished.  Repaired: the body keeps running, 1 waits in the
+ready queue and runs after the body has yielded, before the access returns to ordinary code. -/
+theorem c05_asis_generator_without_queue :
+    (runGenAsIs init [Act.gnext 0]).cur = some 0
+    ∧ (runGenAsIs init [Act.gnext 0]).active = false
+    ∧ (runGenAsIs init [Act.gnext 0, Act.wake [1] Mode.discard false]).cur = some 1
+    ∧ (runGenAsIs init [Act.gnext 0, Act.wake [1] Mode.discard false]).st 0 = St.stacked
+    ∧ (run init [Act.gnext 0]).active = true
+    ∧ (run init [Act.gnext 0, Act.wake [1] Mode.discard false]).cur = some 0
+    ∧ (run init [Act.gnext 0, Act.wake [1] Mode.discard false]).ready = [1]
+    ∧ (run init [Act.gnext 0, Act.wake [1] Mode.discard false, Act.gyield]).cur = some 1
+    ∧ (run init [Act.gnext 0, Act.wake [1] Mode.discard false, Act.gyield]).st 0 = St.yielded
+    ∧ (run init [Act.gnext 0, Act.wake [1] Mode.discard false, Act.gyield, Act.fin]).cur = none
+    ∧ (run init [Act.gnext 0, Act.wake [1] Mode.discard false, Act.gyield, Act.fin]).active = false := by decide
+
+/-- reachable states that use the new steps: a second access resumes the yielded body; a yielded generator cannot be made ready
+by a `wake`; access from a coroutine (1 is blocked, what the body queued stays queued when 1 continues) and from ordinary code
+inside a block; `pause` in a body with an empty queue continues the body; a finished generator is not resumed -/
+example :
+    (run init [Act.gnext 0, Act.gyield, Act.gnext 0]).cur = some 0
+    ∧ (run init [Act.gnext 0, Act.gyield, Act.gnext 0]).runs = [0, 0]
+    ∧ (run init [Act.gnext 0, Act.gyield, Act.wake [0] Mode.discard false]).cur = none
+    ∧ (run init [Act.gnext 0, Act.gyield, Act.wake [0] Mode.discard false]).st 0 = St.yielded
+    ∧ (run init [Act.start 1 true, Act.gnext 0, Act.wake [2] Mode.discard false, Act.gyield]).cur = some 1
+    ∧ (run init [Act.start 1 true, Act.gnext 0, Act.wake [2] Mode.discard false, Act.gyield]).ready = [2]
+    ∧ (run init [Act.enter, Act.gnext 0]).base = some Base.callMain
+    ∧ (run init [Act.enter, Act.gnext 0, Act.wake [2] Mode.discard false, Act.gyield]).cur = none
+    ∧ (run init [Act.enter, Act.gnext 0, Act.wake [2] Mode.discard false, Act.gyield]).ready = [2]
+    ∧ (run init [Act.gnext 0, Act.pause, Act.fin, Act.gnext 0]).cur = none := by decide
 
 /-- The pinned (unrepaired) `parallel`: the awaiting coroutine 0 was resumed in its new thread by a bare
 `h.resume()`, i.e. outside coroutine mode; when it then detaches coroutine 1 and drops the suspend point, 1 runs
